@@ -76,6 +76,7 @@ type Engine struct {
 	allocAll  bool
 	goTargets []goTarget
 	strSeen   map[string]bool
+	decEntry  Term
 }
 
 func NewEngine(p *Program, fn *ssa.Function, fc *FuncContract) *Engine {
@@ -364,6 +365,31 @@ func (s *State) havocPrefix(prefixes []string, keepSites bool) {
 	}
 }
 
+// havocObject: the object at ref changes arbitrarily, whatever its type (all H components).
+func (s *State) havocObject(ref Term) {
+	e := s.e
+	e.epoch++
+	ep := e.epoch
+	upd := func(name string, old Term) Term {
+		elem := arrayElemSort(old.Sort)
+		nv := e.declare(fmt.Sprintf("%s@o%d", name, ep), elem)
+		return e.define("h", Store(old, ref, nv))
+	}
+	for name, old := range s.heap {
+		if strings.HasPrefix(name, "H.") {
+			s.heap[name] = upd(name, old)
+		}
+	}
+	oldBase := s.base
+	s.base = func(name string, sort Sort) Term {
+		t := oldBase(name, sort)
+		if strings.HasPrefix(name, "H.") {
+			return upd(name, t)
+		}
+		return t
+	}
+}
+
 // preserveSites: objects allocated locally whose reference never left this function are untouched by callees.
 func (e *Engine) preserveSites(name string, old, nw Term) {
 	if !strings.HasPrefix(name, "H.") {
@@ -414,6 +440,12 @@ func (e *Engine) mergeStates(conds []Term, sts []*State) *State {
 	if len(sts) == 1 {
 		return sts[0].clone()
 	}
+	// snapshot the predecessors: callers may overwrite them in place afterwards
+	snap := make([]*State, len(sts))
+	for i := range sts {
+		snap[i] = sts[i].clone()
+	}
+	sts = snap
 	m := &State{e: e, cells: map[*ssa.Alloc][]Term{}, heap: map[string]Term{}, held: map[string]Term{}}
 	pick := func(prefix string, ts []Term) Term {
 		same := true
